@@ -167,3 +167,116 @@ def replay(ctx, rep):   # noqa: F811
         from harness import common
         return common.scenario_replay(ctx, rep, {'loaded': loaded_scenarios})
     return _kernel_replay(ctx, rep)
+
+
+# ---------------------------------------------------------------------------
+# model classes that compare by VALUE (static classes with __eq__/__hash__ on a name): a child moved between two
+# distinct but equal parents, an object equal to a root of its resource given a container: one owner each, by identity
+
+def value_equal_scenarios(ctx, out):
+    from harness import common
+    common.use_repo()
+    from pyecore import ecore as E
+    from pyecore.resources import ResourceSet, URI
+    rng = common.rng_for(ctx.seed, 'C02:valueeq')
+    n = 60 if ctx.tier != 'thorough' else 1000
+    cnt = 0
+
+    @E.EMetaclass
+    class VFolder(object):
+        name = E.EAttribute(eType=E.EString)
+        subs = E.EReference(upper=-1, containment=True)
+        one = E.EReference(containment=True)
+
+        def __init__(self, name=None, **kw):
+            self.name = name
+
+        def __eq__(self, o):
+            return isinstance(o, VFolder) and self.name == o.name
+
+        def __hash__(self):
+            return hash(self.name)
+    VFolder.subs.eType = VFolder
+    VFolder.one.eType = VFolder
+    for it in range(n):
+        rs = ResourceSet()
+        res = [rs.create_resource(URI(f'/nonexistent/ve{i}.xmi')) for i in range(2)]
+        objs = [VFolder(rng.choice(['a', 'b', 'c'])) for _ in range(7)]
+        hist = [['names', [o.name for o in objs]]]
+        bad = None
+        for step in range(rng.randrange(3, 10)):
+            i, j = rng.randrange(7), rng.randrange(7)
+            k = rng.choice(['append', 'append', 'set', 'rappend', 'remove'])
+            o, p = objs[i], objs[j]
+            try:
+                if k in ('append', 'set'):
+                    a, cyc = p, False
+                    while a is not None:
+                        cyc = cyc or a is o
+                        a = a.eContainer()
+                    if cyc:
+                        continue
+                    if k == 'append':
+                        if any(x == o and x is not o for x in p.subs):
+                            continue      # an EQUAL sibling: unique collections are equality-based by design
+                        p.subs.append(o)
+                    else:
+                        p.one = o
+                elif k == 'rappend':
+                    r = res[j % 2]
+                    if any(x == o and x is not o for x in r.contents):
+                        continue
+                    r.append(o)
+                else:
+                    c = o.eContainer()
+                    if c is None:
+                        continue
+                    if c.one is o:
+                        c.one = None
+                    else:
+                        idx = next(t for t, x in enumerate(c.subs) if x is o)
+                        c.subs.pop(idx)
+                hist.append([k, i, j])
+            except Exception as e:  # noqa
+                hist.append([k, i, j, type(e).__name__])
+                bad = ('edit-raised', f'{k} obj{i} obj{j}: {type(e).__name__}: {e}')
+                break
+            cnt += 1
+            for t, x in enumerate(objs):
+                slots = [(u, 'subs') for u, q in enumerate(objs) for y in q.subs if y is x] + \
+                        [(u, 'one') for u, q in enumerate(objs) if q.one is x]
+                roots = [u for u, r in enumerate(res) for y in r.contents if y is x]
+                c = x.eContainer()
+                if len(slots) + len(roots) > 1:
+                    bad = ('two-owners', f'obj{t} ({x.name}) is held by slots {slots} and listed by resources {roots}')
+                elif slots and (c is None or c is not objs[slots[0][0]]):
+                    bad = ('container-mismatch', f'obj{t} sits in obj{slots[0][0]}.{slots[0][1]} but eContainer() is '
+                                                 f'{"None" if c is None else "obj" + str(next(u for u, q in enumerate(objs) if q is c))}')
+                elif not slots and c is not None:
+                    bad = ('container-without-slot', f'obj{t} names a container but no slot holds it')
+                elif roots and x._eresource is not res[roots[0]]:
+                    bad = ('root-without-resource', f'obj{t} is listed by resource {roots[0]} but does not point to it')
+                if bad:
+                    break
+            if bad:
+                break
+        if bad:
+            out.fail({'property': 'C02', 'clause': bad[0], 'scenario': 'valueeq'}, f'after {hist[-1]}: {bad[1]}',
+                     {'scenario': 'valueeq', 'seed': ctx.seed, 'tier': ctx.tier, 'history': hist})
+    out.coverage['value_equal_ownership_edits'] = cnt
+
+
+_run_l = run
+_replay_l = replay
+
+
+def run(ctx, out):   # noqa: F811
+    _run_l(ctx, out)
+    value_equal_scenarios(ctx, out)
+
+
+def replay(ctx, rep):   # noqa: F811
+    if rep.get('case', {}).get('scenario') == 'valueeq':
+        from harness import common
+        return common.scenario_replay(ctx, rep, {'valueeq': value_equal_scenarios})
+    return _replay_l(ctx, rep)
